@@ -314,7 +314,7 @@ func c16DumpRepo(dir string, kr repository.Keyring) (d c16Dump) {
 			d.Invalid = append(d.Invalid, "identity: "+err.Error())
 		}
 		if a := c16AuthorOf(se.Entity); a != c16LocalAuthor {
-			d.Identities = append(d.Identities, se.Entity.Id().String()+" "+a)
+			d.Identities = append(d.Identities, se.Entity.Id().String()+" "+a+fmt.Sprintf(" login=%q name=%q", se.Entity.Login(), se.Entity.Name()))
 		}
 	}
 	sort.Strings(d.Identities)
@@ -719,6 +719,25 @@ func c16IssueSuffix(t *gitlabsim.Tracker, iid string) string {
 }
 
 // c16GroundTruth compares the compiled bugs with the tracker's current state.
+// c16IdentityTruth: the login of an identity imported for tracker user N is that user's username (the simulated
+// usernames are plain words, which no cleanup changes) - also after runs in which a request failed.
+func c16IdentityTruth(res *c16Result, t *gitlabsim.Tracker, rd c16Round) {
+	for _, s := range rd.Dump.Identities {
+		var gid int
+		var login string
+		if i := strings.Index(s, " gitlab:"); i >= 0 {
+			if _, err := fmt.Sscanf(s[i+1:], "gitlab:%d login=%q", &gid, &login); err == nil {
+				if u, ok := t.Users[gid]; ok {
+					res.count("imported_identities_compared_with_tracker_users", 1)
+					if login != u.Username {
+						res.find("ground-truth:identity-login", "round %s: the identity imported for tracker user %d (%s) has login %q", rd.Name, gid, u.Username, login)
+					}
+				}
+			}
+		}
+	}
+}
+
 func c16GroundTruth(out *c16Result, t *gitlabsim.Tracker, rd c16Round) {
 	// findings on issues whose artefact ids collide are one defect class whatever field is hit
 	res := &c16Result{Counters: out.Counters, Sets: out.Sets}
@@ -732,6 +751,7 @@ func c16GroundTruth(out *c16Result, t *gitlabsim.Tracker, rd c16Round) {
 		}
 	}()
 	res.count("ground_truth_comparisons", 1)
+	c16IdentityTruth(res, t, rd)
 	byIID := map[string][]c16Bug{}
 	for _, b := range rd.Dump.Bugs {
 		byIID[b.IID] = append(byIID[b.IID], b)
@@ -1504,6 +1524,8 @@ func c16RunCase(c c16Case) (res c16Result) {
 
 		clean = A.round("clean-run-after-fault", false, nil)
 		c16CheckRound(&res, clean, "", "")
+		c16IdentityTruth(&res, t, faulted)
+		c16IdentityTruth(&res, t, clean)
 		for _, e := range clean.Errors {
 			ec := c16ErrClass(e)
 			if ec == "multiple-matching-operation" {
@@ -1559,6 +1581,23 @@ func c16RunCase(c c16Case) (res c16Result) {
 				return ""
 			}
 			c16SameCompiled(&res, t, "resume-differs:"+cls, fmt.Sprintf("run with %s on %q, then a clean run, vs an import that never failed", c.Fault.Mode, c.Fault.Identity), clean, ref, cause)
+			// the imported identities too (who they are, not their git-bug ids, which differ between repositories)
+			who := func(rd c16Round) []string {
+				var out []string
+				for _, s := range rd.Dump.Identities {
+					if i := strings.IndexByte(s, ' '); i >= 0 {
+						out = append(out, s[i+1:])
+					}
+				}
+				sort.Strings(out)
+				return out
+			}
+			if len(ref.Ref) == 0 {
+				if a, b := who(clean), who(ref); strings.Join(a, "|") != strings.Join(b, "|") {
+					res.find("resume-differs:"+cls+":identities", "run with %s on %q, then a clean run, vs an import that never failed: imported identities %v vs %v", c.Fault.Mode, c.Fault.Identity, a, b)
+				}
+				res.count("identity_sets_compared_after_resume", 1)
+			}
 		}
 		page := c.Fault.Identity[strings.LastIndex(c.Fault.Identity, " ")+1:]
 		res.Shape = fmt.Sprintf("fault/%s/%s/%s/%s/%s%s", c.Round, c.Fault.Mode, cls, page, outcome, flavour)
